@@ -1,7 +1,7 @@
 (* C02 — property theorems about the model of the job scheduler (FV.C02.Model).
    Statements only; proofs are in Inv, Steps*, Acc*, Reach, Order, Safe. *)
 From Coq Require Import List NArith Bool.
-From FV.C02 Require Import Model Graph Inv Order Safe.
+From FV.C02 Require Import Model Graph Inv Order Safe Reach NoPanic.
 Import ListNotations.
 
 (* 1. Task-graph safety in all schedules.  For every job graph G (static jobs, dynamically added
@@ -35,6 +35,16 @@ Theorem launch_guarantees : forall G, wf_graph G ->
   /\ (forall d x, In (Var d) l -> In x (g_added st) -> disc_of G x = d -> In x (g_wfin st)).
 Proof. exact launch_semantics. Qed.
 Print Assumptions launch_guarantees.
+
+(* 4. The completed-twice / completed-but-not-pending panics are unreachable: in every reachable
+      non-panicked state of every graph with unique ids, delivering the completion message of a launched,
+      finished, not yet completed job completes it and the ids it also completes without panic. *)
+Theorem completion_delivery_never_panics : forall G, wf_graph G -> forall st i,
+  reach G st -> err st = false ->
+  In i (g_launched st) -> In i (g_wfin st) -> ~ In i (success st) ->
+  err (complete_with_also st i) = false.
+Proof. exact delivery_never_panics. Qed.
+Print Assumptions completion_delivery_never_panics.
 
 (* The hypotheses are satisfiable: a small graph with a gate (job 2 starts Unknown and is rewritten by
    the handler of job 0, which also adds job 3); job 2 reads what job 3 writes. *)
